@@ -257,6 +257,36 @@ def shared_name_reach_cases():
                     yield f"{kind}, {first} listed first, {order}{' (repaired)' if repaired else ''}", {"name": "g", "nodes": nodes, "bind": {}}, repaired
 
 
+def graphnode_name_collision_cases():
+    """A nested-graph node called `foo` next to ANOTHER node that outputs a value called `foo` (the library's own rule: a
+    nested-graph node's name must not be an output name of another node - paths like `foo.x` would be ambiguous). The
+    nested graph also outputs `foo` itself (allowed on its own); the two producers are exclusive branches of one gate.
+    The verdict must not depend on which of the two is listed first. Repaired (other -> foo2) is accepted.
+    Yields (label, spec, must_accept)."""
+    for kind in ("ifelse", "route"):
+        for order in ("sub-first", "other-first", "gate-last"):
+            for repaired in (False, True):
+                gate = ({"k": "ifelse", "name": "g", "params": [{"n": "k"}], "t": "foo", "f": "other", "table": [True, False]} if kind == "ifelse"
+                        else {"k": "route", "name": "g", "params": [{"n": "k"}], "targets": ["foo", "other"], "table": ["foo", "other"]})
+                sub = {"k": "sub", "name": "foo", "prog": {"name": "foo", "nodes": [{"k": "fn", "name": "mk", "params": [{"n": "k"}], "outs": ["foo"]}], "bind": {}}}
+                other = {"k": "fn", "name": "other", "params": [{"n": "k"}], "outs": ["foo2" if repaired else "foo"]}
+                nodes = {"sub-first": [gate, sub, other], "other-first": [gate, other, sub], "gate-last": [other, sub, gate]}[order]
+                yield f"{kind}, {order}{' (repaired)' if repaired else ''}", {"name": "g", "nodes": nodes, "bind": {}}, repaired
+
+
+def exclusive_branches_in_cycle_cases():
+    """The two branches of ONE single-target gate write the same name, and the gate reads that name: a(x0)->x, b(x0)->x,
+    gate(x) -> a | b | END (a loop that alternates between two strategies). They are exclusive gate branches - the
+    constructor must accept the graph, as it accepts it when the same edges are spelled out. Yields (label, spec)."""
+    for kind in ("route", "ifelse"):
+        for order in (0, 1):
+            a = {"k": "fn", "name": "a", "params": [{"n": "x0"}], "outs": ["x"]}
+            b = {"k": "fn", "name": "b", "params": [{"n": "x0"}], "outs": ["x"]}
+            gate = ({"k": "route", "name": "g", "params": [{"n": "x"}], "targets": ["a", "b", "END"], "table": ["a", "b", "END"], "key": "x"} if kind == "route"
+                    else {"k": "ifelse", "name": "g", "params": [{"n": "x"}], "t": "a", "f": "b", "table": [True, False], "key": "x"})
+            yield f"{kind}, {'a' if order == 0 else 'b'} listed first", {"name": "g", "nodes": ([a, b] if order == 0 else [b, a]) + [gate], "bind": {}}
+
+
 def three_target_cases():
     """A route with THREE exclusive targets b1,b2,b3.  join(t, i=None) is downstream of b1 and b2 (not of b3); p(t) is
     downstream of b1 only; both produce `r`.  On branch b1 both run: not exclusive, not ordered -> rejected for every
@@ -833,6 +863,23 @@ def run(ctx):
             elif not ok and st == "other-error":
                 ctx.violation("C19:flaw-wrong-error:duplicate-producer-downstream-of-shared-name", f"{label}: raised {e!r}", case)
         ctx.case({"directed": "shared-name-reach"}, True)
+        for label, spec, ok in graphnode_name_collision_cases():
+            st, e = try_build(spec)
+            ctx.obs["flaws_injected" if not ok else "must_accept_checked"] += 1
+            case = {"flawed": spec, "flaw": "nested-graph-node-name-is-another-nodes-output", "position": label}
+            if ok and st != "accepted":
+                ctx.violation("C19:valid-graph-rejected:graphnode-name-collision-repaired", f"{label}: rejected: {e!r}", case)
+            elif not ok and st == "accepted":
+                ctx.violation("C19:flaw-accepted:graphnode-name-collides-with-output", f"{label}: a nested-graph node named like another node's output was accepted (the other listing order is rejected)", case)
+            elif not ok and st == "other-error":
+                ctx.violation("C19:flaw-wrong-error:graphnode-name-collides-with-output", f"{label}: raised {e!r}", case)
+        ctx.case({"directed": "graphnode-name-collision"}, True)
+        for label, spec in exclusive_branches_in_cycle_cases():
+            st, e = try_build(spec)
+            ctx.obs["must_accept_checked"] += 1
+            if st != "accepted":
+                ctx.violation("C19:valid-graph-rejected:exclusive-branches-in-cycle", f"{label}: the two branches of one gate write the name the gate reads; rejected: {str(e)[:160]!r}", {"flawed": spec, "flaw": "none (valid graph)", "position": label})
+        ctx.case({"directed": "exclusive-branches-in-cycle"}, True)
         for label, spec, ok in three_target_cases():
             st, e = try_build(spec)
             ctx.obs["flaws_injected" if not ok else "must_accept_checked"] += 1
